@@ -637,4 +637,39 @@ def isolateEcho (chains : List (List Modifier)) (tok : Option String) : Option S
     let body := enc "{\"k\":\"k123\",\"g\":\"gg\"}"
     s!"raw:{enc raw},{",".intercalate fields},body:{body}/raw:{enc raw},title:{enc ("T-" ++ raw)},body:"
 
+/-! ### several pools in one process (mode=pools, round 6) -/
+
+/-- what one shot of the pool with tag `t` sends, according to ITS ammo file (`harness/cmd/c11/twopools.go`): request
+`r…` rendered from the pool's own uri / header / body templates with the pool's own variable `v<tag>`, then request
+`q…` — as the pool's target records it -/
+def poolsEcho (t : String) : String :=
+  let g := "v" ++ t
+  s!"path:{enc ("/echo/p-" ++ t ++ "/" ++ g)},pool:{enc (t ++ "-" ++ g)},body:{enc ("b-" ++ t ++ "-" ++ g)}/path:{enc ("/echo/q-" ++ t)},two:{enc t},body:"
+
+/-- the pool index a letter of `order` names -/
+def poolsIndex (c : Char) : Nat := c.toNat - 'A'.toNat
+
+/-- the prediction: sequential form — per shot what the pool that fires it sends; concurrent form — per pool (in order)
+the one thing all its shots send (`-` for a pool that does not shoot) -/
+def poolsExpected (tags : List String) (order : String) (par : Bool) : List String :=
+  if par then
+    tags.zipIdx.map fun (t, i) => if order.toList.any (fun c => poolsIndex c == i) then poolsEcho t else "-"
+  else order.toList.map fun c => poolsEcho (tags.getD (poolsIndex c) "?")
+
+/-- whatever a pool sends is a function of its own definition: a shot that sends what ANOTHER pool's templates say (or
+anything else) has been altered by the other pool's instances -/
+def judgePools (tags : List String) (order : String) (par : Bool) (sent : List String) : String :=
+  let exp := poolsExpected tags order par
+  if sent.length != exp.length then s!"fail:crash:{sent.length} observations for {exp.length} expected"
+  else match (sent.zip exp).zipIdx.find? (fun ((a, b), _) => a != b) with
+    | none => "ok"
+    | some ((a, b), j) =>
+      let who := if par then s!"pool {Char.ofNat ('A'.toNat + j)}"
+                 else s!"shot {j} (pool {(order.toList.getD j '?')})"
+      let other := (tags.zipIdx.find? fun (t, _) => (a.splitOn "+").any (· == poolsEcho t) && poolsEcho t != b).map
+        fun (_, k) => s!" — the definition of pool {Char.ofNat ('A'.toNat + k)}"
+      match ((echoFields a).zip (echoFields b)).find? (fun (x, y) => x != y) with
+      | some (x, y) => s!"fail:cross-pool:{who} sent [{x}], its own ammo file says [{y}]{other.getD ""}"
+      | none => s!"fail:cross-pool:{who} sent [{a.take 120}], its own ammo file says [{b.take 120}]"
+
 end Pandora.Spec.C11
